@@ -7,6 +7,8 @@
                        rotations (every pixel position sees all four codes)
                    (B) per channel: all 16x16 individual pairs and every (base, delta)
                        whose sum stays in 0..31, both flips, tables/selectors varying
+                   (C, thorough) black / white base colours with every mode, flip,
+                       table pair and rotation (clamping at both ends)
                    with the exact expected image (ETC1A4: alpha within Near(.,.,4)).  *)
 EXTENDS TexContainers, TLC, Json, IOUtils, SequencesExt
 
@@ -39,9 +41,14 @@ SetB == { LET t1 == v % 8  t2 == (v \div 8) % 8  s == (v + ch) % 4
             ch \in 0..2, m \in 0..1, fl \in 0..1, v \in 0..255 }
 SetBValid == { b \in SetB : EtcValid(b, 0) }
 
+\* (C, thorough) the extreme base colours with every mode, flip, table pair and rotation: clamping
+SetC == IF Tier = "quick" THEN {}
+        ELSE { Block(s, t1, t2, m, fl, v, v, v) :
+                 s \in 0..3, t1 \in 0..7, t2 \in 0..7, m \in 0..1, fl \in 0..1, v \in {0, 248, 255} }
 \* a deterministic enumeration (TLC keeps sets normalised)
 BlocksA == SetToSeq(SetA)
 BlocksB == SetToSeq(SetBValid)
+BlocksC == SetToSeq({ b \in SetC : EtcValid(b, 0) })
 
 \* ------------------------------------------------------------------ laws
 Zero8 == <<0, 0, 0, 0, 0, 0, 0, 0>>
@@ -125,7 +132,7 @@ LawInv == Law(c)
 TName == <<116, 120>>
 Side == 64                      \* 64x64 texture = 256 blocks
 PerTex == (Side \div 4) * (Side \div 4)
-AllBlocks == BlocksA \o BlocksB
+AllBlocks == BlocksA \o BlocksB \o BlocksC
 NTex == (Len(AllBlocks) + PerTex - 1) \div PerTex
 \* block j (1-based, wrapping) of the enumeration
 BlockNo(j) == AllBlocks[((j - 1) % Len(AllBlocks)) + 1]
